@@ -639,6 +639,9 @@ class AsyncFIXConnection:
             if is_sess_msg or not await self.should_replay(replay_msg):
                 gap_fill_end = msg_seq_num + 1
             else:
+                # everything before this message that is not replayed is skipped,
+                #  numbers that never reached the journal included
+                gap_fill_end = msg_seq_num
                 if gap_fill_begin < gap_fill_end:
                     # we need to send a gap fill message
                     gap_fill_msg = FIXMessage(FMsg.SEQUENCERESET)
